@@ -54,3 +54,14 @@ Fixpoint trie3_eqb (a b : trie3) : bool :=
 Definition whfast_dh_ok : bool :=
   palindromic3 whfast_dh_word && order3_ok 2 (10 ^ 25) whfast_dh_word && negb (order3_ok 3 (10 ^ 4) whfast_dh_word)
   && trie3_eqb (product3 6 whfast_dh_word_unsync) (product3 6 (whfast_dh_word ++ whfast_dh_word)).
+
+(* round 3 — MERCURIUS and TRACE (non-pericenter branch): kick-first hybrid word in democratic-heliocentric coordinates
+   part2: interaction(dt/2), jump(dt/2), [com(dt)], kepler(dt) (+ encounter / BS sub-integration of the same sub-Hamiltonian),
+   jump(dt/2);  synchronize: interaction(dt/2).      Letters: 0 = Kepler part A' = H_Kepler + sum (1-w) V_ij,
+   1 = interaction part B' = sum w V_ij, 2 = jump; A' + B' + J = H for EVERY value of the switching weight (C01/Switch.v). *)
+Definition hybrid_word : scheme3 := [(1, hf); (2, hf); (0, gen_SC); (2, hf); (1, hf)]%Z.
+Definition hybrid_word_unsync : scheme3 :=
+  [(1, hf); (2, hf); (0, gen_SC); (2, hf); (1, gen_SC); (2, hf); (0, gen_SC); (2, hf); (1, hf)]%Z.
+Definition hybrid_ok : bool :=
+  palindromic3 hybrid_word && order3_ok 2 (10 ^ 25) hybrid_word && negb (order3_ok 3 (10 ^ 4) hybrid_word)
+  && trie3_eqb (product3 6 hybrid_word_unsync) (product3 6 (hybrid_word ++ hybrid_word)).
